@@ -98,6 +98,9 @@ func runCase(line string) (string, string) {
 	case "PD":
 		r, d := hx.Guard(pDeadline, func() string { return runPD(f) })
 		return id + " " + r, d
+	case "AH":
+		r, d := runAH(f)
+		return id + " " + r, d
 	case "AV":
 		r, d := runAV(f)
 		return id + " " + r, d
